@@ -50,6 +50,30 @@ let c11 lineno (f : string array) =
   and body = bytes_of_hex f.(8) and p = bool_of_field f.(9) in
   verdict lineno (M.c11_model hdr data status code cr cl body p) (M.c11_spec hdr data status code cr cl body p)
 
+(* c17 direct name accepted | reset kind | put kind name status code panic | list kind status names *)
+let c17_state : (string, M.n list list) Hashtbl.t = Hashtbl.create 7
+let c17 lineno (f : string array) =
+  match f.(1) with
+  | "direct" ->
+    let name = bytes_of_hex f.(2) and acc = bool_of_field f.(3) in
+    verdict lineno (M.c17_direct_model name acc) (M.c17_direct_spec name acc)
+  | "reset" -> Hashtbl.replace c17_state f.(2) []; print_string "SKIP\n"
+  | "put" ->
+    let st = (try Hashtbl.find c17_state f.(2) with Not_found -> []) in
+    let name = bytes_of_hex f.(3) and status = z_of_int (int_of_string f.(4)) and code = bytes_of_hex f.(5) in
+    let p = bool_of_field f.(6) in
+    let (st', m) = M.c17_put_model st name status code in
+    let sp = M.c17_put_spec st name status code in
+    Hashtbl.replace c17_state f.(2) st';
+    let pm = if p then [bytes_of_hex "70616e6963"] else [] in
+    verdict lineno (pm @ m) (pm @ sp)
+  | "list" ->
+    let st = (try Hashtbl.find c17_state f.(2) with Not_found -> []) in
+    let names = if f.(4) = "" then [] else List.map bytes_of_hex (String.split_on_char ',' f.(4)) in
+    let r = M.c17_list_check st names in
+    verdict lineno r r
+  | k -> failwith ("c17: unknown sub-kind " ^ k)
+
 let () =
   let lineno = ref 0 in
   (try
@@ -59,6 +83,7 @@ let () =
       let f = split_tab line in
       (match f.(0) with
        | "c11" -> c11 !lineno f
+       | "c17" -> c17 !lineno f
        | "#" -> print_string "OK\n"
        | k -> failwith ("unknown case kind " ^ k))
     done
